@@ -446,6 +446,19 @@ Theorem C02_spin_waker_not_lost : forall ssched ext w,
 Proof. exact spin_waker_not_lost. Qed.
 Print Assumptions C02_spin_waker_not_lost.
 
+(* the case in which the layer is exact — whatever still spins in the stuck configuration is an OS
+   thread (no pool worker spins): the conclusion of C02_no_lost_wakeup, word for word, for runs with
+   interrupts *)
+Theorem C02_spin_waker_not_lost_os_wakers : forall ssched ext w,
+  ext w = None ->
+  let c := spin_run ssched ext in
+  sstuck c ->
+  (forall a, ext a = None -> spin_at (fst c) (snd c a) = None) ->
+  forall u p, u < ntasks (fst c) -> wake (tasks (fst c) u) = Some p ->
+    tw_of (fst c) u <> wS (p + 1) /\ tw_of (fst c) u <> wA p.
+Proof. exact spin_waker_not_lost_os. Qed.
+Print Assumptions C02_spin_waker_not_lost_os_wakers.
+
 (* non-vacuity: OS thread 0 creates T = [Register; Suspend] and interrupts it (sint = true at the
    step that enters the critical section) while T is registered and (active, 1): the obligation
    wake = Some 1 exists, the waker is at the load and SPINS (spin_at = Some T); two steps of the
@@ -477,3 +490,11 @@ Example C02_example_spin_self_stuck :
   sstuck c /\ spin_at (fst c) (snd c 1) = Some 0 /\ running (bpc (snd c 1)) 0 /\
   spin_at (fst c) (snd c 2) = None.
 Proof. exact spin_self_stuck. Qed.
+
+(* ... and the run of C02_example_spin_waker, continued by one idle iteration, is stuck with nobody
+   spinning and T terminated: the hypotheses of C02_spin_waker_not_lost_os_wakers (with w = 1, nv_ext
+   1 = None) are met by a run in which a waker did spin *)
+Example C02_example_spin_end_stuck :
+  let c := spin_run spin_sched_end nv_ext in
+  sstuck c /\ (forall a, spin_at (fst c) (snd c a) = None) /\ st (tw_of (fst c) 0) = st_terminated.
+Proof. exact spin_end_stuck. Qed.
